@@ -1,1 +1,107 @@
-def hello := "world"
+/-
+Basic vocabulary of the model: byte strings, outcomes (ok / negative error / memory fault),
+checked reads.  A C pointer into a buffer is a `Nat` offset into the `Bytes` value that models
+that allocation; every read goes through `rd`, which faults outside the allocation.
+-/
+namespace LWV
+
+abbrev Bytes := List UInt8
+
+inductive Fault where
+  | oobRead (what : String) (idx len : Nat)
+  | oobWrite (what : String) (idx len : Nat)
+  | nullDeref (site : String)
+  | divZero (site : String)
+  | doubleFree
+  | useAfterFree
+  | fuel (site : String)
+  deriving Repr, DecidableEq
+
+inductive Outcome (α : Type) where
+  | ok (a : α)
+  | err (code : Int)
+  | fault (f : Fault)
+  deriving Repr, DecidableEq
+
+namespace Outcome
+
+def isFault {α} : Outcome α → Bool
+  | fault _ => true
+  | _ => false
+
+def isOk {α} : Outcome α → Bool
+  | ok _ => true
+  | _ => false
+
+@[inline] def bind {α β} (x : Outcome α) (f : α → Outcome β) : Outcome β :=
+  match x with
+  | ok a => f a
+  | err c => err c
+  | fault f => fault f
+
+instance : Monad Outcome where
+  pure := ok
+  bind := bind
+
+@[simp] theorem bind_ok {α β} (a : α) (f : α → Outcome β) : (ok a >>= f) = f a := rfl
+@[simp] theorem bind_err {α β} (c : Int) (f : α → Outcome β) : ((err c : Outcome α) >>= f) = err c := rfl
+@[simp] theorem bind_fault {α β} (x : Fault) (f : α → Outcome β) : ((fault x : Outcome α) >>= f) = fault x := rfl
+@[simp] theorem pure_eq {α} (a : α) : (pure a : Outcome α) = ok a := rfl
+
+end Outcome
+
+def EINVAL : Int := 22
+def ENOMEM : Int := 12
+
+/-- checked byte read -/
+def rd (what : String) (bs : Bytes) (i : Nat) : Outcome UInt8 :=
+  match bs[i]? with
+  | some b => .ok b
+  | none => .fault (.oobRead what i bs.length)
+
+theorem rd_ok {what : String} {bs : Bytes} {i : Nat} (h : i < bs.length) : rd what bs i = .ok bs[i] := by
+  simp [rd, List.getElem?_eq_getElem h]
+
+/-- `n` bytes starting at `off` (checked) -/
+def rdSlice (what : String) (bs : Bytes) (off n : Nat) : Outcome Bytes :=
+  if off + n ≤ bs.length then .ok ((bs.drop off).take n)
+  else .fault (.oobRead what (off + n) bs.length)
+
+def slice (bs : Bytes) (off n : Nat) : Bytes := (bs.drop off).take n
+
+def le16 (lo hi : UInt8) : Nat := lo.toNat + 256 * hi.toNat
+def be16 (hi lo : UInt8) : Nat := 256 * hi.toNat + lo.toNat
+
+def leNat : Bytes → Nat
+  | [] => 0
+  | b :: t => b.toNat + 256 * leNat t
+
+def beNat (bs : Bytes) : Nat := bs.foldl (fun a b => a * 256 + b.toNat) 0
+
+/-- little-endian encoding of `v` in `n` bytes -/
+def leBytes : Nat → Nat → Bytes
+  | 0, _ => []
+  | n + 1, v => UInt8.ofNat (v % 256) :: leBytes n (v / 256)
+
+def hexDigit (n : Nat) : Char := if n < 10 then Char.ofNat (48 + n) else Char.ofNat (87 + n)
+
+def toHex (bs : Bytes) : String :=
+  if bs.isEmpty then "-" else String.ofList (bs.flatMap fun b => [hexDigit (b.toNat / 16), hexDigit (b.toNat % 16)])
+
+def hexVal (c : Char) : Option Nat :=
+  if '0' ≤ c ∧ c ≤ '9' then some (c.toNat - 48)
+  else if 'a' ≤ c ∧ c ≤ 'f' then some (c.toNat - 87)
+  else if 'A' ≤ c ∧ c ≤ 'F' then some (c.toNat - 55)
+  else none
+
+def ofHexAux : List Char → Bytes → Option Bytes
+  | [], acc => some acc.reverse
+  | [_], _ => none
+  | a :: b :: t, acc =>
+    match hexVal a, hexVal b with
+    | some x, some y => ofHexAux t (UInt8.ofNat (x * 16 + y) :: acc)
+    | _, _ => none
+
+def ofHex (s : String) : Option Bytes := if s == "-" then some [] else ofHexAux s.toList []
+
+end LWV
